@@ -196,6 +196,9 @@ def templates(version, tier, want='all', part=0, of=1):
     if want == 'low':
         return
     # trees over class leaves by number of operators; level k = list of (template, nleaves)
+    if tier == 'quick':
+        # the twins of operators that stay (jump, ^2, gradient, single substitution) are exercised in the trees with one operator only
+        U = [(n, op) for n, op in U if n not in ('mean', 'pow-1', 'surfgrad', 'subs-pq')]
     byops = {0: [(l, 1) for l in LC]}
     maxleaves = 3 if tier == 'quick' else 4
     for nops in range(1, maxops + 1):
